@@ -12,6 +12,7 @@ import VrlProofs.Lemmas.KindSuperset
 import VrlProofs.Lemmas.KindInsert
 import VrlProofs.Lemmas.KindGetNeg
 import VrlProofs.Lemmas.KindRemove
+import VrlProofs.Lemmas.KindSupConv
 
 namespace C19
 open Spec
@@ -195,5 +196,30 @@ theorem remove_root_sound (v : Value) (K : Kind) (c : Bool) : removeLawM v K [] 
     have h2 := Spec.mem_upgradeUndefined_of_mem v K hm
     simp only [Bool.not_true, Bool.false_or, Bool.and_eq_true]
     exact ⟨h1, h2⟩
+
+/-- the converse direction: a member passes the subtype test, for well-formed kinds (array slots hold
+    index keys, keys strictly increasing) whose `Infinite` unknowns are all `any`. With a non-`any`
+    `Infinite` (json) unknown it is false of the code (`W.witness_memsup_inf_vs_exact`). -/
+theorem superset_kindOf_of_mem (v : Value) (K : Kind) (hi : K.hasNonAnyInf = false)
+    (hw : K.WF = true) (h : mem v K = true) : K.isSuperset v.kindOf = true := by
+  unfold Kind.isSuperset
+  apply Spec.superset_of_mem v _ K _ h ⟨hi, hw⟩
+  unfold Kind.fuel; omega
+
+/-- **`mem_iff_superset`** (the maintainers' fuzz oracle `K.is_superset(Kind::from(v))` coincides with
+    membership) on the fragment where it holds. -/
+theorem mem_iff_superset_partial (v : Value) (K : Kind) (hs : v.Sorted = true)
+    (hi : K.hasNonAnyInf = false) (hw : K.WF = true)
+    (he : K.anyUnknown Unknown.exactIsAny = false) :
+    mem v K = true ↔ K.isSuperset v.kindOf = true :=
+  ⟨superset_kindOf_of_mem v K hi hw, mem_of_superset_kindOf v K hs he⟩
+
+/-- under the hypotheses of `mem_iff_superset_partial` the oracle clause `memsup` holds. -/
+theorem memsup_partial (v : Value) (K : Kind) (hs : v.Sorted = true)
+    (hi : K.hasNonAnyInf = false) (hw : K.WF = true)
+    (he : K.anyUnknown Unknown.exactIsAny = false) : memsupLawM v K = true := by
+  unfold memsupLawM memsupLaw
+  have := mem_iff_superset_partial v K hs hi hw he
+  cases h1 : mem v K <;> cases h2 : K.isSuperset v.kindOf <;> simp_all
 
 end C19
